@@ -114,7 +114,9 @@ class ActionContext(abc.ABC):
             return WatchResult(source, watch, variable_id), var_processor.var_lookup, log_str
         except BaseException as e:
             logging.exception("Error evaluating watch %s", watch)
-            message = self.__error_text(e)
+            # the text of the exception is data of the program (the key that is missing, a whole document that cannot
+            # be parsed): it is held to the string limit like the values
+            message = self.__error_text(e)[:max(self.collection_config.max_string_length, len(type(e).__name__))]
             return WatchResult(source, watch, None, message), {}, message
 
     @staticmethod
